@@ -747,3 +747,63 @@ type stepper struct{ n int }
 
 //go:noinline
 func (s *stepper) step() int { return s.n + 1 }
+
+// TestC10ByNameMany: many distinct functions mocked by name one after the other in one process, then again in another
+// order: every by-name mock lands on the function of that name and on no other, however many names were asked before.
+func TestC10ByNameMany(t *testing.T) {
+	rep := vmon.NewReport("C10")
+	defer rep.Write()
+	rng := vmon.NewRng(uint64(vmon.EnvInt("VERIF_SEED", 1)), 77)
+	n := len(qPop)
+	orders := [][]int{}
+	asc, desc, shuf := make([]int, n), make([]int, n), make([]int, n)
+	for i := 0; i < n; i++ {
+		asc[i], desc[i], shuf[i] = i, n-1-i, i
+	}
+	for i := n - 1; i > 0; i-- {
+		j := rng.Intn(i + 1)
+		shuf[i], shuf[j] = shuf[j], shuf[i]
+	}
+	orders = append(orders, asc, asc, desc, shuf)
+	mocks := 0
+	for oi, order := range orders {
+		for _, i := range order {
+			name := fmt.Sprintf("q%02d", i)
+			b := mocker.Create()
+			var perr interface{}
+			func() {
+				defer func() { perr = recover() }()
+				if oi%2 == 0 {
+					b.ExportFunc(name).As(func(int) int { return 0 }).Return(900000 + i)
+				} else {
+					v := 900000 + i
+					b.ExportFunc(name).Apply(func(int) int { return v })
+				}
+			}()
+			rep.Eval(int64(n))
+			mocks++
+			if perr != nil {
+				rep.Violate("C10/present-function-not-found", fmt.Sprintf("pass %d: ExportFunc(%q) panicked: %v", oi, name, perr), map[string]interface{}{"name": name})
+				func() { defer func() { recover() }(); b.Reset() }()
+				break
+			}
+			bad := ""
+			for j, f := range qPop {
+				want := 1 + 1000*(j+1)
+				if j == i {
+					want = 900000 + i
+				}
+				if got := f(1); got != want {
+					bad += fmt.Sprintf(" q%02d(1)=%d(want %d)", j, got, want)
+				}
+			}
+			b.Reset()
+			if bad != "" {
+				rep.Violate("C10/function-address-of-other-symbol", fmt.Sprintf("pass %d (%d by-name mocks so far in this process): ExportFunc(%q) mocked, calls give:%s", oi, mocks, name, bad), map[string]interface{}{"name": name, "pass": oi})
+				return
+			}
+		}
+		rep.Class(fmt.Sprintf("by-name-many/pass-%d", oi))
+	}
+	rep.Stat("by_name_mocks_in_one_process", int64(mocks))
+}
